@@ -424,6 +424,36 @@ def c15_sites():
     return sites
 
 
+def c15_statics():
+    """(file, name, kind) of every `static` item, `thread_local!` and `lazy_static!` in the non-test code of the
+    four library crates, including statics inside `quote!` blocks (they end up in generated parsers): the
+    places where state could be shared between two parses or two threads."""
+    res = []
+    files = list(C15_FILES)
+    # every library source file of the four crates (new files included)
+    for crate in ("cfgrammar", "lrtable", "lrpar", "lrlex"):
+        root = os.path.join(REPO, crate, "src", "lib")
+        for dp, _, fns in os.walk(root):
+            for fn in sorted(fns):
+                if fn.endswith(".rs"):
+                    rel = os.path.relpath(os.path.join(dp, fn), REPO)
+                    if rel not in files:
+                        files.append(rel)
+    for path in files:
+        try:
+            text = src(path)
+        except OSError:
+            continue
+        m = re.search(r"#\[cfg\(test\)\]\s*\n\s*(?:pub\s+)?mod\s+\w+", text)
+        body = text if not m else text[:m.start()]
+        for m in re.finditer(r"^\s*(?:pub(?:\([^)]*\))?\s+)?static\s+(mut\s+)?(\w+)\s*:\s*([^=;]*)", body, re.M):
+            ty = re.sub(r"\s+", " ", m.group(3)).strip()
+            res.append((path, m.group(2), ("static mut " if m.group(1) else "static ") + ty[:60]))
+        for m in re.finditer(r"\b(thread_local|lazy_static)!", body):
+            res.append((path, m.group(1) + "!", "macro"))
+    return res
+
+
 def c15(out):
     """cross-check with the audited list (tools/propcfg/C15.py AUDIT): a site that was never classified
     breaks the tie for C15 (and is reported by every check, since the extraction is shared)."""
@@ -440,6 +470,21 @@ def c15(out):
         for s in sites:
             f.write(("audited    " if s in known else "UNAUDITED  ") + " | ".join(s) + "\n")
     new = [s for s in sites if s not in known]
+    # shared state: every static must be in the audited list too (immutable tables, build-time registries,
+    # the write-once parser data of generated parsers)
+    try:
+        from propcfg.C15 import AUDIT_STATICS
+    except ImportError:
+        AUDIT_STATICS = None
+    if AUDIT_STATICS is not None:
+        kstat = {(a["file"], a["name"], a["kind"]) for a in AUDIT_STATICS}
+        stat = c15_statics()
+        with open(os.path.join(wd, "static_items.txt"), "w") as f:
+            for s in stat:
+                f.write(("audited    " if s in kstat else "UNAUDITED  ") + " | ".join(s) + "\n")
+        new += [("static item", ) + s for s in stat if s not in kstat]
+        out.append(f"/-- C15: number of `static` items in the library crates (all audited: none is mutable state shared between parses) -/")
+        out.append(f"def C15_STATIC_ITEMS : Nat := {len(stat)}")
     out.append(f"/-- C15: number of iteration sites over randomly seeded hash collections found in /repo (all audited) -/")
     out.append(f"def C15_HASH_ITERATION_SITES : Nat := {len(sites)}")
     out.append("")
@@ -825,8 +870,8 @@ def main():
     if old != new:
         open(OUT, "w").write(new)
     if unaudited:
-        failures["C15"] = ("C15: iteration over a randomly seeded HashMap/HashSet that is not in the audited list "
-                           "(tools/propcfg/C15.py AUDIT) - classify it (order-irrelevant / order-relevant) and model it: "
+        failures["C15"] = ("C15: iteration over a randomly seeded HashMap/HashSet, or a `static` item, that is not in the audited lists "
+                           "(tools/propcfg/C15.py AUDIT / AUDIT_STATICS) - classify it (order-irrelevant / order-relevant; immutable / shared state) and model it: "
                            + "; ".join(" | ".join(u) for u in unaudited[:4]))
     # a failed extractor is a broken tie for ITS property (and for every property when BASE fails)
     want = sys.argv[1] if len(sys.argv) > 1 else None
